@@ -31,6 +31,7 @@ type World struct {
 	exemptFID map[int]bool     // field ids never subject to frame conditions
 	guards    map[int]*boundGuard // field id -> guard
 	fieldAssume map[int]*boundGuard
+	fidSets     map[string][]int // named sets of field ids (emitted as define-fun predicates over Int)
 }
 
 type boundGuard struct {
@@ -81,6 +82,7 @@ func NewWorld() *World {
 		exemptFID: map[int]bool{},
 		guards:    map[int]*boundGuard{},
 		fieldAssume: map[int]*boundGuard{},
+		fidSets:     map[string][]int{},
 	}
 }
 
@@ -497,6 +499,13 @@ func (w *World) Prelude() string {
 	}
 	for _, nm := range sortedKeys(w.uninterp) {
 		fmt.Fprintf(&sb, "(declare-fun %s %s)\n", nm, w.uninterp[nm])
+	}
+	for _, nm := range sortedKeys(w.fidSets) {
+		fmt.Fprintf(&sb, "(define-fun %s ((f Int)) Bool (or false", nm)
+		for _, id := range w.fidSets[nm] {
+			fmt.Fprintf(&sb, " (= f %d)", id)
+		}
+		sb.WriteString("))\n")
 	}
 	return sb.String()
 }
